@@ -26,6 +26,19 @@
 #define RG_F	8
 #define Z0DEF	50.0
 
+/*
+ * The frame's allocation table never recycles slots of freed blocks unless
+ * the address comes back; a small ASan quarantine makes addresses come back
+ * quickly and keeps that table (and the workers' memory) small over the
+ * millions of tiny error-message allocations made here.  Everything set in
+ * ASAN_OPTIONS by ./check still takes precedence.
+ */
+const char *__asan_default_options(void);
+const char *__asan_default_options(void)
+{
+    return "quarantine_size_mb=4:thread_local_quarantine_size_kb=64";
+}
+
 /* ------------------------------------------------------------------ */
 /* reference model                                                     */
 
@@ -173,12 +186,13 @@ static int model_convert(model_t *m, int to)
 enum kind {
     K_INIT, K_RESIZE, K_SETTYPE, K_ADDF, K_SETF, K_SETCELL, K_SETMAT,
     K_SETVEC, K_SETZ0, K_SETALLZ0, K_SETZ0V, K_SETFZ0, K_SETFZ0V, K_CONVERT,
-    K_NKINDS
+    K_SETFV, K_NKINDS
 };
 static const char *const kind_name[K_NKINDS] = {
     "init", "resize", "set_type", "add_frequency", "set_frequency",
     "set_cell", "set_matrix", "set_from_vector", "set_z0", "set_all_z0",
-    "set_z0_vector", "set_fz0", "set_fz0_vector", "convert"
+    "set_z0_vector", "set_fz0", "set_fz0_vector", "convert",
+    "set_frequency_vector"
 };
 
 /* relative index codes */
@@ -214,7 +228,7 @@ static void add_op(int kind, int a, int b, int c, int d)
     ++n_ops;
 }
 
-static void build_ops(void)
+static void build_ops(int tier)
 {
     if (n_ops)
 	return;
@@ -299,6 +313,26 @@ static void build_ops(void)
     add_op(K_CONVERT, VPT_T, 0, 0, 0);
     add_op(K_CONVERT, VPT_ZIN, 0, 0, 0);
     add_op(K_CONVERT, VPT_NTYPES, 0, 0, 0);	/* refused */
+    /* set_frequency_vector */
+    add_op(K_SETFV, 0, 0, 0, 0);
+    if (!tier)
+	return;
+    /* thorough tier: a wider dimension grid and more types */
+    add_op(K_INIT, VPT_Y, 3, 3, 2);
+    add_op(K_INIT, VPT_A, 2, 2, 3);
+    add_op(K_INIT, VPT_UNDEF, 3, 3, 0);
+    add_op(K_RESIZE, VPT_UNDEF, 2, 2, 2);
+    add_op(K_RESIZE, VPT_UNDEF, 2, 3, 1);
+    add_op(K_RESIZE, VPT_Y, 3, 3, 2);
+    add_op(K_RESIZE, VPT_ZIN, 1, 3, 3);
+    add_op(K_RESIZE, VPT_ZIN, 1, 0, 1);
+    add_op(K_RESIZE, VPT_H, 2, 2, 2);
+    add_op(K_SETTYPE, VPT_Z, 0, 0, 0);
+    add_op(K_SETTYPE, VPT_B, 0, 0, 0);
+    add_op(K_CONVERT, VPT_Y, 0, 0, 0);
+    add_op(K_CONVERT, VPT_U, 0, 0, 0);
+    add_op(K_CONVERT, VPT_H, 0, 0, 0);
+    add_op(K_CONVERT, VPT_UNDEF, 0, 0, 0);
 }
 
 static const char *tname(int t)
@@ -314,8 +348,7 @@ static const char *tname(int t)
 
 static void op_name(int tier, int o, char *buf, size_t n)
 {
-    (void)tier;
-    build_ops();
+    build_ops(tier);
     const op_t *p = &optab[o];
     switch (p->kind) {
     case K_INIT:
@@ -452,17 +485,108 @@ static int is_hugec(double complex v)
 }
 
 /*
- * observe: compare every getter with the model.  With `boundary' the index
- * ranges run from -1 to n+1, otherwise over the valid range only.
+ * observe: compare every getter with the model.  All valid indices are
+ * read; with `boundary' each index argument is additionally set to -1, n
+ * and n+1 in turn while the other index arguments stay at 0 and at n-1.
  */
+static const int bad3[3] = { IX_M1, IX_N, IX_N1 };
+
+static void obs_cell(const vnadata_t *vdp, const model_t *m, vf_result *r,
+	const char *pfx, int f, int i, int j)
+{
+    char what[96];
+    int ok = f >= 0 && f < m->nf && i >= 0 && i < m->rows && j >= 0 &&
+	j < m->cols;
+
+    snprintf(what, sizeof(what), "findex %d, row %d, column %d of %d x %d "
+	    "x %d", f, i, j, m->nf, m->rows, m->cols);
+    BEGIN();
+    double complex v = vnadata_get_cell(vdp, f, i, j);
+    int e = errno;
+    if (!ok)
+	want_refusal(r, pfx, "vnadata_get_cell", is_hugec(v), e, what);
+    else if (want_success(r, pfx, "vnadata_get_cell", 0, what) &&
+	    !ceq(v, m->cell[f][i * m->cols + j]))
+	bad_value(r, pfx, "vnadata_get_cell", what, v,
+		m->cell[f][i * m->cols + j]);
+}
+
+static void obs_to_vector(const vnadata_t *vdp, const model_t *m,
+	vf_result *r, const char *pfx, int i, int j)
+{
+    char what[96];
+    int ok = i >= 0 && i < m->rows && j >= 0 && j < m->cols;
+    double complex vec[MAXF];
+
+    for (int f = 0; f < MAXF; ++f)
+	vec[f] = -777.0;
+    snprintf(what, sizeof(what), "row %d, column %d of %d x %d", i, j,
+	    m->rows, m->cols);
+    BEGIN();
+    int rc = vnadata_get_to_vector(vdp, i, j, vec);
+    int e = errno;
+    if (!ok) {
+	want_refusal(r, pfx, "vnadata_get_to_vector", rc == -1, e, what);
+	for (int f = 0; f < MAXF; ++f)
+	    if (!ceq(vec[f], -777.0)) {
+		char sig[160];
+		snprintf(sig, sizeof(sig), "%seffect:vnadata_get_to_vector",
+			pfx);
+		vf_fail(r, sig, "refused vnadata_get_to_vector(%s) wrote to "
+			"the caller's vector", what);
+		break;
+	    }
+    } else if (want_success(r, pfx, "vnadata_get_to_vector", rc != 0,
+		what)) {
+	for (int f = 0; f < m->nf; ++f)
+	    if (!ceq(vec[f], m->cell[f][i * m->cols + j])) {
+		bad_value(r, pfx, "vnadata_get_to_vector", what, vec[f],
+			m->cell[f][i * m->cols + j]);
+		break;
+	    }
+    }
+}
+
+static void obs_fz0(const vnadata_t *vdp, const model_t *m, vf_result *r,
+	const char *pfx, int f, int p)
+{
+    char what[96];
+    int ports = model_ports(m);
+    int fok = f >= 0 && f < m->nf, pok = p >= 0 && p < ports;
+    const double complex *zm = fok ? model_z0_at(m, f) : m->z0;
+
+    snprintf(what, sizeof(what), "findex %d of %d, port %d of %d%s", f,
+	    m->nf, p, ports, m->fz0 ? " [fz0]" : " [z0]");
+    BEGIN();
+    double complex v = vnadata_get_fz0(vdp, f, p);
+    int e = errno;
+    if (!pok || (!fok && m->fz0)) {
+	want_refusal(r, pfx, "vnadata_get_fz0", is_hugec(v), e, what);
+    } else if (!fok) {
+	/*
+	 * Ordinary mode, findex out of range: vnadata(3) says the findex
+	 * argument is not used in this mode, the property says out-of-range
+	 * indices are refused.  Accept a clean refusal or the ordinary
+	 * value.
+	 */
+	if (is_hugec(v))
+	    want_refusal(r, pfx, "vnadata_get_fz0", 1, e, what);
+	else if (want_success(r, pfx, "vnadata_get_fz0", 0, what) &&
+		!ceq(v, m->z0[p]))
+	    bad_value(r, pfx, "vnadata_get_fz0", what, v, m->z0[p]);
+    } else if (want_success(r, pfx, "vnadata_get_fz0", 0, what) &&
+	    !ceq(v, zm[p])) {
+	bad_value(r, pfx, "vnadata_get_fz0", what, v, zm[p]);
+    }
+}
+
 static void observe(const vnadata_t *vdp, const model_t *m, vf_result *r,
 	const char *pfx, int boundary)
 {
     char what[96];
-    int lo = boundary ? -1 : 0;
-    int ex = boundary ? 2 : 0;		/* indices run to n-1+ex */
     int ports = model_ports(m);
     int cells = m->rows * m->cols;
+    int nbad = boundary ? 3 : 0;
 
     /* dimensions, type, mode */
     ncalls += 5;
@@ -489,12 +613,13 @@ static void observe(const vnadata_t *vdp, const model_t *m, vf_result *r,
     }
 
     /* frequencies */
-    for (int f = lo; f < m->nf + ex; ++f) {
+    for (int k = -nbad; k < m->nf; ++k) {
+	int f = k < 0 ? ix(bad3[-k - 1], m->nf) : k;
 	snprintf(what, sizeof(what), "findex %d of %d", f, m->nf);
 	BEGIN();
 	double v = vnadata_get_frequency(vdp, f);
 	int e = errno;
-	if (f < 0 || f >= m->nf)
+	if (k < 0)
 	    want_refusal(r, pfx, "vnadata_get_frequency", v == HUGE_VAL, e,
 		    what);
 	else if (want_success(r, pfx, "vnadata_get_frequency", 0, what) &&
@@ -536,87 +661,56 @@ static void observe(const vnadata_t *vdp, const model_t *m, vf_result *r,
 	}
     }
 
-    /* cells */
-    for (int f = lo; f < m->nf + ex; ++f) {
-	int fok = f >= 0 && f < m->nf;
-	for (int i = lo; i < m->rows + ex; ++i) {
-	    for (int j = lo; j < m->cols + ex; ++j) {
-		int ok = fok && i >= 0 && i < m->rows && j >= 0 &&
-		    j < m->cols;
-		snprintf(what, sizeof(what), "findex %d, row %d, column %d "
-			"of %d x %d x %d", f, i, j, m->nf, m->rows, m->cols);
-		BEGIN();
-		double complex v = vnadata_get_cell(vdp, f, i, j);
-		int e = errno;
-		if (!ok)
-		    want_refusal(r, pfx, "vnadata_get_cell", is_hugec(v), e,
-			    what);
-		else if (want_success(r, pfx, "vnadata_get_cell", 0, what) &&
-			!ceq(v, m->cell[f][i * m->cols + j]))
-		    bad_value(r, pfx, "vnadata_get_cell", what, v,
-			    m->cell[f][i * m->cols + j]);
-	    }
+    /* cells: every valid index, then one bad index at a time */
+    for (int f = 0; f < m->nf; ++f)
+	for (int i = 0; i < m->rows; ++i)
+	    for (int j = 0; j < m->cols; ++j)
+		obs_cell(vdp, m, r, pfx, f, i, j);
+    for (int b = 0; b < nbad; ++b) {
+	for (int base = 0; base < 2; ++base) {
+	    int f0 = base ? m->nf - 1 : 0;
+	    int i0 = base ? m->rows - 1 : 0;
+	    int j0 = base ? m->cols - 1 : 0;
+	    obs_cell(vdp, m, r, pfx, ix(bad3[b], m->nf), i0, j0);
+	    obs_cell(vdp, m, r, pfx, f0, ix(bad3[b], m->rows), j0);
+	    obs_cell(vdp, m, r, pfx, f0, i0, ix(bad3[b], m->cols));
 	}
+    }
+    for (int k = -nbad; k < m->nf; ++k) {
+	int f = k < 0 ? ix(bad3[-k - 1], m->nf) : k;
 	snprintf(what, sizeof(what), "findex %d of %d", f, m->nf);
 	BEGIN();
 	const double complex *mp = vnadata_get_matrix(vdp, f);
 	int e = errno;
-	if (!fok) {
+	if (k < 0) {
 	    want_refusal(r, pfx, "vnadata_get_matrix", mp == NULL, e, what);
 	} else if (cells > 0 && want_success(r, pfx, "vnadata_get_matrix",
 		    mp == NULL, what)) {
-	    for (int k = 0; k < cells; ++k)
-		if (!ceq(mp[k], m->cell[f][k])) {
+	    for (int c = 0; c < cells; ++c)
+		if (!ceq(mp[c], m->cell[f][c])) {
 		    snprintf(what, sizeof(what), "findex %d)[%d] (%d x %d",
-			    f, k, m->rows, m->cols);
-		    bad_value(r, pfx, "vnadata_get_matrix", what, mp[k],
-			    m->cell[f][k]);
+			    f, c, m->rows, m->cols);
+		    bad_value(r, pfx, "vnadata_get_matrix", what, mp[c],
+			    m->cell[f][c]);
 		    break;
 		}
 	}
     }
     if (boundary) {
-	static const int codes[5] = { IX_M1, IX_0, IX_LAST, IX_N, IX_N1 };
-	for (int a = 0; a < 5; ++a) {
-	    for (int b = 0; b < 5; ++b) {
-		int i = ix(codes[a], m->rows), j = ix(codes[b], m->cols);
-		int ok = i >= 0 && i < m->rows && j >= 0 && j < m->cols;
-		double complex vec[MAXF];
-		for (int f = 0; f < MAXF; ++f)
-		    vec[f] = -777.0;
-		snprintf(what, sizeof(what), "row %d, column %d of %d x %d",
-			i, j, m->rows, m->cols);
-		BEGIN();
-		int rc = vnadata_get_to_vector(vdp, i, j, vec);
-		int e = errno;
-		if (!ok) {
-		    want_refusal(r, pfx, "vnadata_get_to_vector", rc == -1,
-			    e, what);
-		    for (int f = 0; f < MAXF; ++f)
-			if (!ceq(vec[f], -777.0)) {
-			    char sig[160];
-			    snprintf(sig, sizeof(sig),
-				    "%seffect:vnadata_get_to_vector", pfx);
-			    vf_fail(r, sig, "refused vnadata_get_to_vector"
-				    "(%s) wrote to the caller's vector", what);
-			    break;
-			}
-		} else if (want_success(r, pfx, "vnadata_get_to_vector",
-			    rc != 0, what)) {
-		    for (int f = 0; f < m->nf; ++f)
-			if (!ceq(vec[f], m->cell[f][i * m->cols + j])) {
-			    bad_value(r, pfx, "vnadata_get_to_vector", what,
-				    vec[f], m->cell[f][i * m->cols + j]);
-			    break;
-			}
-		}
-	    }
+	obs_to_vector(vdp, m, r, pfx, 0, 0);
+	obs_to_vector(vdp, m, r, pfx, m->rows - 1, m->cols - 1);
+	for (int b = 0; b < 3; ++b) {
+	    obs_to_vector(vdp, m, r, pfx, ix(bad3[b], m->rows), 0);
+	    obs_to_vector(vdp, m, r, pfx, ix(bad3[b], m->rows), m->cols - 1);
+	    obs_to_vector(vdp, m, r, pfx, 0, ix(bad3[b], m->cols));
+	    obs_to_vector(vdp, m, r, pfx, m->rows - 1, ix(bad3[b], m->cols));
 	}
     }
 
     /* ordinary impedances */
-    for (int p = lo; p < ports + ex; ++p) {
-	int ok = p >= 0 && p < ports && !m->fz0;
+    for (int k = -nbad; k < ports; ++k) {
+	int p = k < 0 ? ix(bad3[-k - 1], ports) : k;
+	int ok = k >= 0 && !m->fz0;
 	snprintf(what, sizeof(what), "port %d of %d%s", p, ports,
 		m->fz0 ? ", per-frequency z0 in use" : "");
 	BEGIN();
@@ -650,35 +744,19 @@ static void observe(const vnadata_t *vdp, const model_t *m, vf_result *r,
     }
 
     /* per-frequency getters (work in both modes) */
-    for (int f = lo; f < m->nf + ex; ++f) {
-	int fok = f >= 0 && f < m->nf;
+    for (int f = 0; f < m->nf; ++f)
+	for (int p = 0; p < ports; ++p)
+	    obs_fz0(vdp, m, r, pfx, f, p);
+    for (int b = 0; b < nbad; ++b) {
+	obs_fz0(vdp, m, r, pfx, ix(bad3[b], m->nf), 0);
+	obs_fz0(vdp, m, r, pfx, ix(bad3[b], m->nf), ports - 1);
+	obs_fz0(vdp, m, r, pfx, 0, ix(bad3[b], ports));
+	obs_fz0(vdp, m, r, pfx, m->nf - 1, ix(bad3[b], ports));
+    }
+    for (int k = -nbad; k < m->nf; ++k) {
+	int f = k < 0 ? ix(bad3[-k - 1], m->nf) : k;
+	int fok = k >= 0;
 	const double complex *zm = fok ? model_z0_at(m, f) : m->z0;
-	for (int p = lo; p < ports + ex; ++p) {
-	    int pok = p >= 0 && p < ports;
-	    snprintf(what, sizeof(what), "findex %d of %d, port %d of %d%s",
-		    f, m->nf, p, ports, m->fz0 ? " [fz0]" : " [z0]");
-	    BEGIN();
-	    double complex v = vnadata_get_fz0(vdp, f, p);
-	    int e = errno;
-	    if (!pok || (!fok && m->fz0)) {
-		want_refusal(r, pfx, "vnadata_get_fz0", is_hugec(v), e, what);
-	    } else if (!fok) {
-		/*
-		 * Ordinary mode, findex out of range: vnadata(3) says the
-		 * findex argument is not used in this mode, the property
-		 * says out-of-range indices are refused.  Accept a clean
-		 * refusal or the ordinary value.
-		 */
-		if (is_hugec(v))
-		    want_refusal(r, pfx, "vnadata_get_fz0", 1, e, what);
-		else if (want_success(r, pfx, "vnadata_get_fz0", 0, what) &&
-			!ceq(v, m->z0[p]))
-		    bad_value(r, pfx, "vnadata_get_fz0", what, v, m->z0[p]);
-	    } else if (want_success(r, pfx, "vnadata_get_fz0", 0, what) &&
-		    !ceq(v, zm[p])) {
-		bad_value(r, pfx, "vnadata_get_fz0", what, v, zm[p]);
-	    }
-	}
 	snprintf(what, sizeof(what), "findex %d of %d%s", f, m->nf,
 		m->fz0 ? " [fz0]" : " [z0]");
 	BEGIN();
@@ -868,6 +946,17 @@ static void apply(vnadata_t *vdp, model_t *m, int o, int *rc_impl,
 	}
 	break;
     }
+    case K_SETFV: {
+	double fv[MAXF];
+	for (int f = 0; f < MAXF; ++f)
+	    fv[f] = fval(o, f);
+	snprintf(what, wn, "%d frequencies", m->nf);
+	*rc_impl = vnadata_set_frequency_vector(vdp, fv);
+	for (int f = 0; f < m->nf; ++f)
+	    m->freq[f] = fv[f];
+	*rc_model = 0;
+	break;
+    }
     case K_CONVERT:
 	snprintf(what, wn, "%s %dx%dx%d in place to %s", tname(m->type),
 		m->rows, m->cols, m->nf, tname(p->a));
@@ -965,8 +1054,8 @@ static void model_key(const model_t *m, vf_result *r, int coarse)
 	    (unsigned long long)h2);
 }
 
-static int nops(int tier) { (void)tier; build_ops(); return n_ops; }
-static int maxdepth(int tier) { return tier ? 4 : 3; }
+static int nops(int tier) { build_ops(tier); return n_ops; }
+static int maxdepth(int tier) { return tier ? 5 : 4; }
 
 static void run_hist(int tier, const int *ops, int n, vf_result *r)
 {
@@ -975,7 +1064,7 @@ static void run_hist(int tier, const int *ops, int n, vf_result *r)
     char what[160];
     int rc_i = 0, rc_m = 0;
 
-    build_ops();
+    build_ops(tier);
     ncalls = 0;
     model_blank(&m);
     if (n == 0) {
@@ -988,6 +1077,7 @@ static void run_hist(int tier, const int *ops, int n, vf_result *r)
 	model_key(&m, r, 0);
 	return;
     }
+    long live0 = vf_live_total();
     unsigned long mark = vf_exec_begin();
     vf_errlog_reset(&L);
     vdp = vnadata_alloc((vnaerr_error_fn_t *)vf_errfn, &L);
@@ -1059,7 +1149,13 @@ static void run_hist(int tier, const int *ops, int n, vf_result *r)
     }
 done:
     vnadata_free(vdp);
-    vf_exec_end(r, mark);
+    /*
+     * Leak accounting: vf_exec_end() scans the whole allocation table, so
+     * it is only called to describe a leak that the live-block counter has
+     * already shown.
+     */
+    if (vf_live_total() != live0)
+	vf_exec_end(r, mark);
     r->transitions = ncalls;
     r->states = 1;
 }
